@@ -69,11 +69,32 @@ def one(job):
     env = core.base_env(tmpdir=tmp, extra=(dict(job["extra_env"], S4_VERIF_TRACE=job["trace"]) if job["trace"] else dict(job["extra_env"])))
     t0 = time.monotonic()
     closed = job.get("stdout_closed")
+    blocked = job.get("stdout_blocked")
     p = subprocess.Popen([s4, "--color", "never", "-t=+00:00"] + job["files"], env=env, stdin=subprocess.DEVNULL,
-                         stdout=(subprocess.PIPE if closed is not None else subprocess.DEVNULL), stderr=subprocess.PIPE, start_new_session=True)
+                         stdout=(subprocess.PIPE if (closed is not None or blocked) else subprocess.DEVNULL), stderr=subprocess.PIPE, start_new_session=True)
     res = dict(job=job, sent=False, t_sig=None, t_exit=None, rc=None, timed_out=False, event_seen=None)
     try:
-        if closed is not None:
+        if blocked:
+            # nobody reads stdout (a pager that is not scrolled): the printing thread sits in write(2) on the full pipe when
+            # the signal comes. The process must end without the reader's help.
+            time.sleep(1.0)
+            res["blocked_outcome"] = "ended-before-signal"
+            if p.poll() is None:
+                os.kill(p.pid, signal.SIGINT)
+                res["sent"] = True
+                res["t_sig"] = time.monotonic() - t0
+                try:
+                    p.wait(timeout=6)
+                    res["blocked_outcome"] = "ended-by-itself"
+                except subprocess.TimeoutExpired:
+                    res["blocked_outcome"] = "still-alive-6s-after-signal"
+            # now let the reader read on
+            try:
+                _, err = p.communicate(timeout=60)
+            except subprocess.TimeoutExpired:
+                res["blocked_outcome"] = "still-alive-after-the-reader-read-on"
+                raise
+        elif closed is not None:
             # the reader of stdout goes away (`s4 ... | head -1`): read `closed` bytes, then close the pipe; the process ends by itself
             try:
                 if closed:
@@ -231,6 +252,10 @@ def run(ctx):
     for _ in range(ctx.pick(40, 400)):
         add("normal", pick_files(), {}, phase="normal:stdout-closed")
         jobs[-1]["stdout_closed"] = rng.choice([0, 1, 80, 80, 4096, 70000])
+    # SIGINT while nobody reads stdout
+    for _ in range(ctx.pick(8, 60)):
+        add("sigint", pick_files(), {}, phase="sigint:stdout-not-read")
+        jobs[-1]["stdout_blocked"] = True
     # SIGINT at random instants
     for _ in range(ctx.pick(120, 1500)):
         add("sigint", pick_files(), {}, None, rng.choice([0.0, 0.002, 0.005, 0.01, 0.02, 0.05, 0.1, 0.2, 0.4]), phase="sigint:random-instant")
@@ -277,6 +302,11 @@ def run(ctx):
                 # a run that ended before the signal could be sent is a normal run
                 sig = "C18|temp-file-left|%s" % (j["phase"] if r["sent"] else "normal")
             ctx.violation(sig, "%d entries left in TMPDIR after exit (rc %s): %s" % (len(r["left"]), r["rc"], r["left"][:3]), info=info)
+        if j.get("stdout_blocked"):
+            ctx.count("stdout not read: %s" % r.get("blocked_outcome"))
+            if r.get("blocked_outcome") in ("still-alive-6s-after-signal", "still-alive-after-the-reader-read-on"):
+                ctx.violation("C18|interrupt-not-acted-upon-while-stdout-is-not-read", "SIGINT at %.2f s with the printing thread blocked on a full stdout pipe: %s" % (
+                    r["t_sig"], r["blocked_outcome"]), info=info)
         if j["phase"] == "promptness" and r["sent"]:
             dt = r["t_exit"] - r["t_sig"]
             lat.append(round(dt, 2))
